@@ -1286,7 +1286,69 @@ theorem removeDiagAux_parse (inds : List Nat) (i : Nat) (keep : Bool) (r : List 
       · simp [removeDiagAux, parseDiagItems, dropIdx, hc, ih]
       · simp [removeDiagAux, parseDiagItems, dropIdx, hc, ih]
 
+/-- once a removed item switched `in_keep` off, nothing is emitted before the next item -/
+theorem trailing_removeDiagAux_false (inds : List Nat) (i : Nat) (r : List DNode) :
+    trailing (removeDiagAux inds i false r) = [] := by
+  induction r generalizing i with
+  | nil => rfl
+  | cons x r ih =>
+    cases x with
+    | tok t => simp [removeDiagAux, ih]
+    | diagonal t => simp [removeDiagAux, ih]
+    | item cs =>
+      by_cases hc : i ∈ inds
+      · simp [removeDiagAux, hc, ih]
+      · simp [removeDiagAux, hc, trailing]
+
+/-- the nodes that follow a kept item are exactly the ones it had -/
+theorem trailing_removeDiagAux_true (inds : List Nat) (i : Nat) (r : List DNode) (h : noDiagonal r = true) :
+    trailing (removeDiagAux inds i true r) = trailing r := by
+  induction r generalizing i with
+  | nil => rfl
+  | cons x r ih =>
+    cases x with
+    | tok t => simp [noDiagonal] at h; simp [removeDiagAux, trailing, ih i h]
+    | diagonal t => simp [noDiagonal] at h
+    | item cs =>
+      by_cases hc : i ∈ inds
+      · simp [removeDiagAux, hc, trailing, trailing_removeDiagAux_false]
+      · simp [removeDiagAux, hc, trailing]
+
+theorem removeDiagAux_names_noDiagonal (inds : List Nat) (i : Nat) (keep : Bool) (r : List DNode)
+    (h : noDiagonal r = true) :
+    diagNames (removeDiagAux inds i keep r) = dropIdx inds i (diagNames r) := by
+  induction r generalizing i keep with
+  | nil => rfl
+  | cons x r ih =>
+    cases x with
+    | tok t => simp [noDiagonal] at h; cases keep <;> simp [removeDiagAux, diagNames, ih _ _ h]
+    | diagonal t => simp [noDiagonal] at h
+    | item cs =>
+      simp [noDiagonal] at h
+      by_cases hc : i ∈ inds
+      · simp [removeDiagAux, diagNames, dropIdx, hc, ih _ _ h]
+      · simp [removeDiagAux, diagNames, dropIdx, hc, ih _ _ h, trailing_removeDiagAux_true inds (i + 1) r h]
+
+theorem removeDiagAux_names (inds : List Nat) (i : Nat) (keep : Bool) (r : List DNode)
+    (h : diagonalInFront r = true) :
+    diagNames (removeDiagAux inds i keep r) = dropIdx inds i (diagNames r) := by
+  induction r generalizing i keep with
+  | nil => rfl
+  | cons x r ih =>
+    cases x with
+    | tok t => simp [diagonalInFront] at h; cases keep <;> simp [removeDiagAux, diagNames, ih _ _ h]
+    | diagonal t => simp [diagonalInFront] at h; simp [removeDiagAux, diagNames, ih _ _ h]
+    | item cs =>
+      simp [diagonalInFront] at h
+      exact removeDiagAux_names_noDiagonal inds i keep (.item cs :: r) (by simp [noDiagonal, h])
+
+theorem dropIdx_nil {α : Type} (i : Nat) (xs : List α) : dropIdx [] i xs = xs := by
+  induction xs generalizing i with
+  | nil => rfl
+  | cons x xs ih => simp [dropIdx, ih]
+
 def nSd : TNode := { k := .sd, rule := "SD", text := "SD" }
+def nComment (s : String) : TNode := { k := .other, rule := "COMMENT", text := s }
 def nNewline : TNode := { k := .other, rule := "NEWLINE", text := "\n" }
 def oP (n : Int) (d : Nat) (s : String) (fix : Bool) : OParam := { raw := .fin n d, rawS := s, fix := fix }
 
